@@ -173,6 +173,7 @@ func runC17(p *core.Prog, r *core.Report) {
 	c17R9(p, r)
 	c17R11(p, r)
 	c17R12(p, r)
+	c17R13(p, r)
 	c17R10(p, r)
 }
 
@@ -1574,5 +1575,71 @@ func c17R12(p *core.Prog, r *core.Report) {
 	}
 	if n == 0 {
 		r.MissingAnchor(rule, "blocking acquires in "+ocidirRel)
+	}
+}
+
+// ---------------------------------------------------------------------------------------------
+// R13 the source a blob reader has to close stays reachable for its Close
+
+// c17R13: a blob read from a registry holds the request slot of its host until the response is
+// closed, and the response is closed through the blob reader's Close, which closes the field the
+// source was stored in. A method that clears that field without closing what it holds (a conversion
+// that "hands the stream over") turns every later Close into a no-op: the slot is never returned.
+func c17R13(p *core.Prog, r *core.Report) {
+	const rule = "C17.R13"
+	r.Rule(rule, "the source stays reachable for Close: the field of blob.BReader that its Close method closes is set to nil only inside Close itself (no other method of types/blob drops the source without closing it)", 1)
+	br := p.Named("types/blob", "BReader")
+	var closeFn *ssa.Function
+	if br != nil {
+		closeFn = p.MethodOf(br, "Close")
+	}
+	if closeFn == nil {
+		r.MissingAnchor(rule, "types/blob.(*BReader).Close")
+		return
+	}
+	// the fields Close looks at to find what it closes: loads of fields of the receiver that reach a
+	// type assertion to a closer or an invoke of Close
+	closed := map[string]bool{}
+	for _, g := range sortedFuncs(core.Helpers(closeFn, 2)) {
+		for _, b := range g.Blocks {
+			for _, in := range b.Instrs {
+				var v ssa.Value
+				switch x := in.(type) {
+				case *ssa.TypeAssert:
+					v = x.X
+				case ssa.CallInstruction:
+					if x.Common().IsInvoke() && x.Common().Method.Name() == "Close" {
+						v = x.Common().Value
+					}
+				}
+				if v == nil {
+					continue
+				}
+				for _, o := range core.Origins(v, core.SliceOpts{}) {
+					if o.Kind == core.OField {
+						closed[o.Field] = true
+					}
+				}
+			}
+		}
+	}
+	if len(closed) == 0 {
+		r.Undecided(rule, p.FuncName(closeFn), "field closed by Close", p.Pos(closeFn.Pos()), "Close does not close a field of the reader in a form this rule recognises")
+		return
+	}
+	inClose := core.Helpers(closeFn, 2)
+	n := 0
+	lab := labeler{}
+	for _, fs := range fieldStores(pkgFuncs(p, "types/blob"), func(nm *types.Named, f string) bool { return nm == br && closed[f] }) {
+		if !core.IsNilConst(fs.Store.Val) {
+			continue
+		}
+		n++
+		_, fld := core.FieldAddrInfo(fs.Addr)
+		r.Check(inClose[fs.Fn], rule, p.FuncName(fs.Fn), lab.next("source field "+fld+" cleared"), p.Pos(fs.Store.Pos()),
+			"the field that Close closes is set to nil without closing what it holds: the reader's Close becomes a no-op, the response behind the blob is never closed and the request slot of its host is lost")
+	}
+	if n == 0 {
+		r.Held(rule, p.FuncName(closeFn), "source field cleared", p.Pos(closeFn.Pos()), "no method of the package sets the field(s) that Close closes to nil")
 	}
 }
